@@ -2,10 +2,10 @@ SPECIFICATION MCSpec
 CONSTANTS
   LowerBound = TRUE
   Remember = FALSE
-  MaxStreams = 1
+  MaxStreams = 2
   MaxFrames = 1
-  MaxBody = 2
-  BodyOct = {0, 4, 5}
+  MaxBody = 1
+  BodyOct = {0, 5}
 INVARIANTS OutPrefix NoShortFrame NoPanic ConservedInv AllOut
 PROPERTIES IncompleteConsumesNothing NoPartialFrame
 CHECK_DEADLOCK FALSE
